@@ -427,7 +427,18 @@ def _h(case):
     if k not in _HCACHE:
         if len(_HCACHE) > 20000:
             _HCACHE.clear()
-        _HCACHE[k] = (run_local(case), run_threaded(case))
+        out = []
+        for fn, name in ((run_local, 'local'), (run_threaded, 'threaded')):
+            try:
+                out.append(fn(case))
+            except Exception as e:      # noqa: BLE001 - a crash of the code under test is an observation
+                import traceback
+                where = traceback.format_exc().strip().split('\n')[-3].strip()[:160]
+                out.append({'line': 'harness-exc %s: %s @ %s' % (type(e).__name__, str(e)[:120], where),
+                            'apps': [], 'end': 'exc', 'calls': 0, 'pending': b'', 'toC': b'', 'toU': b'',
+                            'cpeer': b'', 'cpeer_eof': False, 'upeer': b'', 'closed': False, 'lost': b'',
+                            'shut': 'exc', 'client_send_failed': False, 'crashed': True})
+        _HCACHE[k] = tuple(out)
     return _HCACHE[k]
 
 
@@ -459,6 +470,9 @@ def _h_oracle(case):
     """Cross-mode equality on the implementation only: what the far ends really read
     (client peer, upstream peer), EOF at the client, and how the loop ended."""
     lo, th = _h(case)
+    for name, x in (('local', lo), ('threaded', th)):
+        if x.get('crashed'):
+            return '%s run crashed: %s' % (name, x['line'][:120])
     if lo['client_send_failed'] or th['client_send_failed']:
         return None                 # the client stopped accepting: outside the quantifier
     if th.get('shut') == 'looping':
@@ -520,7 +534,58 @@ def _peer_eof(b, wait=2.0):
         return True
 
 
+_FDCACHE = {}
+
+
 def run_fd(case):
+    """(line, peer_saw_eof), observed in a forked child: a wrong close() in the code under test must not be
+    able to hit a descriptor of the harness process"""
+    k = _key(case)
+    if k in _FDCACHE:
+        return _FDCACHE[k]
+    rd, wr = os.pipe()
+    pid = os.fork()
+    if pid == 0:
+        try:
+            os.close(rd)
+            signal.alarm(40)
+            try:
+                res = _run_fd_inner(case)
+            except BaseException as e:      # noqa
+                res = ('fds harness-exc %s' % type(e).__name__, False)
+            os.write(wr, json.dumps(res).encode())
+        finally:
+            os._exit(0)
+    os.close(wr)
+    data = b''
+    sel = selectors.DefaultSelector()
+    sel.register(rd, selectors.EVENT_READ)
+    t_end = time.time() + 45
+    while time.time() < t_end:
+        if sel.select(0.5):
+            d = os.read(rd, 65536)
+            if not d:
+                break
+            data += d
+    sel.close()
+    os.close(rd)
+    try:
+        os.kill(pid, signal.SIGKILL)
+    except OSError:
+        pass
+    try:
+        os.waitpid(pid, 0)
+    except OSError:
+        pass
+    try:
+        res = tuple(json.loads(data.decode()))
+    except ValueError:
+        res = ('fds crashed', False)
+    _FDCACHE[k] = res
+    return res
+
+
+def _run_fd_inner(case):
     """returns (line, peer_saw_eof).  Descriptor names as in Modes.Desc."""
     mode, fin = case['mode'], bool(case['finished'])
     flags = _flags(mode)
